@@ -35,7 +35,26 @@ impl Case for NsCase {
 impl NsCase {
     pub fn resolved(&self) -> Vec<Query> {
         let names = self.tax.names();
-        self.queries.iter().map(|(k, a, b, r)| Query::make(*k, &names[idx(*a, names.len())], &names[idx(*b, names.len())], r)).collect()
+        let mut out = vec![];
+        for (k, a, b, r) in &self.queries {
+            let q = Query::make(*k, &names[idx(*a, names.len())], &names[idx(*b, names.len())], r);
+            // a two-name query is followed by its "re-split twins": ':' is a symbol character, so `k:l` + `m` and
+            // `k` + `l:m` are different questions that read alike once the two names are glued together
+            let twins: Vec<Query> = match &q {
+                Query::Fits(a, b) => {
+                    let glued = format!("{a}:{b}");
+                    glued
+                        .char_indices()
+                        .filter(|(p, c)| *c == ':' && *p != a.len() && *p > 0 && *p + 1 < glued.len())
+                        .map(|(p, _)| Query::Fits(glued[..p].to_string(), glued[p + 1..].to_string()))
+                        .collect()
+                }
+                _ => vec![],
+            };
+            out.push(q);
+            out.extend(twins);
+        }
+        out
     }
 }
 
